@@ -16,7 +16,7 @@ CHECKS = {
             "cross-check at small width) hold on the specification, and each state is replayed through six "
             "implementation paths; the reverse direction validates randomly drawn 64-bit operand events with TLC.",
             "Trusted: TLC, the BigInt module (self-checked against native integers at base 4), the Python projection "
-            "of results. Rounding of inexact double results is out of model.", "5/C01"),
+            "of results. CPython's float arithmetic is judged against the specification's own round-to-nearest-even.", "5/C01"),
     "C02": ("TLA+ spec CelLogic (outcome-class algebra of && || ! ?: all exists) checked by TLC; every generated nesting "
             "replayed into both runners and celtypes.logical_*; random deep programs validated by TLC trace spec Trace_C02",
             "TLC enumerates every linear nesting of the logical operators over the outcome classes {true, false, error, two "
